@@ -624,3 +624,317 @@ Theorem process_uri_error_signalled parse_uri limit qo t uri method proto :
 Proof. intro H. unfold process_uri. now rewrite H. Qed.
 
 End UriFold.
+
+(* ------------------------------------------------------------------------------------ *)
+(* 7. headers                                                                            *)
+(* ------------------------------------------------------------------------------------ *)
+
+Section HdrFold.
+Variable fold : bytes -> bytes.
+Variable cookie_ord : bytes -> gmap.
+
+Definition nonempty_key (p : kv) : bool := negb (dc_is_empty (fst p)).
+
+Lemma add_header_headers t k v :
+  v_headers (add_request_header fold cookie_ord t k v) =
+  if dc_is_empty k then v_headers t else cm_add fold (v_headers t) k v.
+Proof.
+  unfold add_request_header. destruct (dc_is_empty k); [reflexivity|].
+  destruct (bytes_eqb (lower_ascii k) (str "content-type")).
+  - destruct (bytes_eqb _ dc_ct_urlencoded); [reflexivity|].
+    destruct (is_prefix _ _); reflexivity.
+  - destruct (bytes_eqb (lower_ascii k) (str "cookie")); reflexivity.
+Qed.
+
+Definition add_headers (t : txv) (hs : list kv) : txv :=
+  fold_left (fun t h => add_request_header fold cookie_ord t (fst h) (snd h)) hs t.
+
+Lemma add_headers_headers hs : forall t,
+  v_headers (add_headers t hs) = add_pairs fold (v_headers t) (filter nonempty_key hs).
+Proof.
+  unfold add_headers. induction hs as [|[k v] hs IH]; intro t; cbn [fold_left filter]; [reflexivity|].
+  rewrite IH, add_header_headers. unfold nonempty_key. cbn [fst snd].
+  destruct (dc_is_empty k); cbn [negb]; reflexivity.
+Qed.
+
+(* every header with a non-empty name is in REQUEST_HEADERS, byte-exact, original spelling *)
+Theorem headers_visible hs :
+  Permutation (cm_find_all (v_headers (add_headers txv_empty hs))) (filter nonempty_key hs).
+Proof. rewrite add_headers_headers. rewrite add_pairs_find_all. reflexivity. Qed.
+
+(* REQUEST_HEADERS:name selects exactly the headers whose folded name equals the folded key,
+   in the order they were added *)
+Theorem headers_lookup hs k : dc_is_empty k = false ->
+  cm_find_string fold (v_headers (add_headers txv_empty hs)) k =
+  filter (fun e => bytes_eqb (fold (fst e)) (fold k)) (filter nonempty_key hs).
+Proof.
+  intro H. unfold cm_find_string. rewrite H, add_headers_headers, add_pairs_bucket. reflexivity.
+Qed.
+
+End HdrFold.
+
+(* ------------------------------------------------------------------------------------ *)
+(* 8. urlencoded body                                                                    *)
+(* ------------------------------------------------------------------------------------ *)
+
+Section BodyFold.
+Variable fold : bytes -> bytes.
+Variable cookie_ord : bytes -> gmap.
+
+Definition urlencoded_tx : txv :=
+  add_request_header fold cookie_ord txv_empty (str "Content-Type") dc_ct_urlencoded.
+
+Lemma urlencoded_tx_eq :
+  urlencoded_tx = set_rbp (set_headers txv_empty (cm_add fold [] (str "Content-Type") dc_ct_urlencoded)) (str "URLENCODED").
+Proof. reflexivity. Qed.
+
+Theorem urlencoded_visible cfg o l :
+  wf_pairs l -> bc_access cfg = true ->
+  Permutation (bo_post_ord o) (parse_query (enc_urlencoded l) 38) ->
+  let t := process_request_body fold cfg o urlencoded_tx (enc_urlencoded l) in
+  Permutation (cm_find_all (v_args_post t)) l /\
+  v_request_body t = enc_urlencoded l /\ v_reqbody_error t = false.
+Proof.
+  intros Hwf Hacc Hord t. unfold t, process_request_body. rewrite Hacc. cbn [negb orb].
+  destruct (dc_is_empty (enc_urlencoded l)) eqn:E.
+  - (* empty body: l must be empty *)
+    destruct l as [|p l].
+    + repeat split; reflexivity.
+    + exfalso. unfold enc_urlencoded, enc_query in E. cbn [map dc_join] in E.
+      destruct l; unfold enc_pair in E; destruct (pct_enc (fst p)); discriminate.
+  - rewrite urlencoded_tx_eq.
+    destruct (bc_force cfg);
+      match goal with |- context [select_processor ?x] => change (select_processor x) with PUrlencoded end;
+      cbn [v_args_post v_request_body v_reqbody_error set_request_body set_args_post set_rbp set_headers txv_empty];
+      (repeat split; [|reflexivity..]);
+      rewrite add_all_flat, add_pairs_find_all; cbn [cm_find_all flat_map app];
+      (eapply Permutation_trans; [unfold gmap_flat; apply Permutation_flat_map; exact Hord|]);
+      unfold parse_query, do_parse_query, enc_urlencoded; rewrite query_roundtrip_pairs by exact Hwf;
+      apply group_pairs_flat.
+Qed.
+
+End BodyFold.
+
+(* ------------------------------------------------------------------------------------ *)
+(* 9. decoded exactly once                                                               *)
+(* ------------------------------------------------------------------------------------ *)
+
+Theorem decoded_once k : wf_bytes k ->
+  parse_pairs 38 true (enc_query [(k, str "%41"%string)]) = [(k, str "%41"%string)] /\
+  query_unescape (str "%41"%string) = [65].
+Proof.
+  intro H. split; [|reflexivity]. apply query_roundtrip_pairs.
+  constructor; [|constructor]. split; [exact H|]. cbn. repeat constructor.
+Qed.
+
+(* ------------------------------------------------------------------------------------ *)
+(* 10. arguments over the limit disappear silently (finding c03-args-over-limit-silent)  *)
+(* ------------------------------------------------------------------------------------ *)
+
+Definition over_limit_witness : list kv := [(str "a"%string, str "1"%string); (str "a"%string, str "2"%string)].
+
+Theorem over_limit_silent_refuted :
+  exists (l : list kv) (limit : nat), wf_pairs l /\
+  forall fold ord, Permutation ord (parse_query (enc_query l) 38) ->
+    let t := process_uri fold dc_simple_parse_uri limit (fun _ => ord) txv_empty
+                         (str "/?"%string ++ enc_query l) (str "GET"%string) (str "HTTP/1.1"%string) in
+    (exists p, In p l /\ ~ In p (cm_find_all (v_args_get t))) /\
+    v_urlencoded_error t = false /\ v_reqbody_error t = false.
+Proof.
+  exists over_limit_witness, 1%nat. split.
+  { unfold over_limit_witness. repeat constructor. }
+  intros fold ord P.
+  assert (E : ord = parse_query (enc_query over_limit_witness) 38).
+  { apply Permutation_sym in P. vm_compute in P. apply Permutation_length_1_inv in P. rewrite P. reflexivity. }
+  subst ord. vm_compute. repeat split.
+  exists ([97], [50]). split; [right; left; reflexivity|].
+  intros [C|[]]. discriminate.
+Qed.
+
+(* ------------------------------------------------------------------------------------ *)
+(* 11. the body processor selection and its error paths                                  *)
+(* ------------------------------------------------------------------------------------ *)
+
+Definition eff_rbp (cfg : body_cfg) (t : txv) : bytes :=
+  if bc_force cfg && dc_is_empty (v_rbp t) then str "URLENCODED"%string else v_rbp t.
+
+Lemma prb_unfold fold cfg o t body : bc_access cfg = true -> dc_is_empty body = false ->
+  exists t1, v_rbp t1 = eff_rbp cfg t /\ v_reqbody_error t1 = v_reqbody_error t /\
+  process_request_body fold cfg o t body =
+    match select_processor (v_rbp t1) with
+    | PNone => t1
+    | PInvalid => set_reqbody_error t1
+    | PUrlencoded =>
+      set_request_body (set_args_post t1 (add_all_groups fold (v_args_post t1) (bo_post_ord o))) body
+    | PRaw => set_request_body t1 body
+    | PJson =>
+      match bo_json o with
+      | Some tree =>
+        let '(w, e) := read_json tree (bc_depth cfg) in
+        let t2 := set_args_post t1 (json_apply fold (v_args_post t1) (bo_json_ord o (json_res w))) in
+        if e then set_reqbody_error t2 else t2
+      | None => set_reqbody_error t1
+      end
+    | PMultipart | PXml => if bo_ext_err o then set_reqbody_error t1 else t1
+    end.
+Proof.
+  intros Ha Hb. unfold process_request_body. rewrite Ha, Hb. cbn [negb orb].
+  eexists. split; [|split; [|reflexivity]]; unfold eff_rbp;
+    destruct (bc_force cfg); cbn [andb]; try reflexivity;
+    destruct (dc_is_empty (v_rbp t)); reflexivity.
+Qed.
+
+(* a request body that cannot be parsed is signalled through REQBODY_ERROR *)
+Theorem body_error_signalled fold cfg o t body :
+  bc_access cfg = true -> dc_is_empty body = false ->
+  match select_processor (eff_rbp cfg t) with
+  | PInvalid => True
+  | PJson => match bo_json o with
+             | None => True
+             | Some tree => snd (read_json tree (bc_depth cfg)) = true
+             end
+  | PMultipart | PXml => bo_ext_err o = true
+  | _ => False
+  end ->
+  v_reqbody_error (process_request_body fold cfg o t body) = true.
+Proof.
+  intros Ha Hb H. destruct (prb_unfold fold cfg o t body Ha Hb) as (t1 & R & _ & E).
+  rewrite E, R. destruct (select_processor (eff_rbp cfg t)); try contradiction; try reflexivity.
+  - destruct (bo_json o) as [tree|]; [|reflexivity].
+    destruct (read_json tree (bc_depth cfg)) as [w e]. cbn [snd] in H. subst e. reflexivity.
+  - rewrite H. reflexivity.
+  - rewrite H. reflexivity.
+Qed.
+
+(* ------------------------------------------------------------------------------------ *)
+(* 12. JSON flattening                                                                   *)
+(* ------------------------------------------------------------------------------------ *)
+
+(* specification: the scalar leaves of a tree with their dotted paths *)
+Fixpoint json_leaves (t : json) (key : bytes) {struct t} : list jwrite :=
+  match t with
+  | JStr s => [(key, s)]
+  | JNull => [(key, [])]
+  | JRaw r => [(key, r)]
+  | JArr items =>
+    (fix go (i : N) (l : list json) : list jwrite :=
+       match l with
+       | [] => []
+       | x :: r => json_leaves x (key ++ [46] ++ itoa i) ++ go (i + 1) r
+       end) 0 items
+  | JObj ms =>
+    (fix go (l : list (bytes * json)) : list jwrite :=
+       match l with
+       | [] => []
+       | (k, x) :: r => json_leaves x (key ++ [46] ++ k) ++ go r
+       end) ms
+  end.
+
+Fixpoint nodup_b (l : list bytes) : bool :=
+  match l with
+  | [] => true
+  | x :: r => negb (existsb (bytes_eqb x) r) && nodup_b r
+  end.
+Lemma nodup_b_NoDup l : nodup_b l = true -> NoDup l.
+Proof.
+  induction l as [|x l IH]; intro H; [constructor|].
+  cbn [nodup_b] in H. apply andb_true_iff in H as [H1 H2]. constructor; [|now apply IH].
+  intro I. apply negb_true_iff in H1.
+  assert (existsb (bytes_eqb x) l = true); [|congruence].
+  apply existsb_exists. exists x. split; [exact I|apply bytes_eqb_refl].
+Qed.
+
+(* the guard: no two paths written by the flattening coincide after case folding *)
+Definition json_unambiguous (fold : bytes -> bytes) (w : list jwrite) : bool :=
+  nodup_b (map (fun e => fold (fst e)) w).
+
+Lemma res_put_fresh k v m : ~ In k (map fst m) -> dc_res_put k v m = m ++ [(k, v)].
+Proof.
+  induction m as [|[k' v'] m IH]; intro H; cbn [dc_res_put app]; [reflexivity|].
+  destruct (bytes_eqb k' k) eqn:E.
+  - apply bytes_eqb_eq in E. subst. exfalso. apply H. now left.
+  - rewrite IH; [reflexivity|]. intro I. apply H. now right.
+Qed.
+
+Lemma json_res_nodup w : NoDup (map fst w) -> json_res w = w.
+Proof.
+  unfold json_res. intro H.
+  enough (G : forall acc, NoDup (map fst (acc ++ w)) ->
+             fold_left (fun m e => dc_res_put (fst e) (snd e) m) w acc = acc ++ w).
+  { apply (G []). exact H. }
+  clear H. induction w as [|[k v] w IH]; intros acc H; cbn [fold_left].
+  - now rewrite app_nil_r.
+  - cbn [fst snd]. rewrite res_put_fresh.
+    + rewrite IH; rewrite <- app_assoc; [reflexivity|exact H].
+    + rewrite map_app in H. cbn [map fst] in H. apply NoDup_remove_2 in H.
+      intro I. apply H. apply in_or_app. now left.
+Qed.
+
+Lemma bucket_get_fresh fk m : ~ In fk (map fst m) -> dc_bucket_get fk m = [].
+Proof.
+  induction m as [|[k' es] m IH]; intro H; cbn [dc_bucket_get]; [reflexivity|].
+  destruct (bytes_eqb k' fk) eqn:E.
+  - apply bytes_eqb_eq in E. subst. exfalso. apply H. now left.
+  - apply IH. intro I. apply H. now right.
+Qed.
+Lemma bucket_put_fresh fk es m : ~ In fk (map fst m) -> dc_bucket_put fk es m = m ++ [(fk, es)].
+Proof.
+  induction m as [|[k' es'] m IH]; intro H; cbn [dc_bucket_put app]; [reflexivity|].
+  destruct (bytes_eqb k' fk) eqn:E.
+  - apply bytes_eqb_eq in E. subst. exfalso. apply H. now left.
+  - rewrite IH; [reflexivity|]. intro I. apply H. now right.
+Qed.
+
+Lemma json_apply_nodup fold ord : forall m,
+  NoDup (map fst m ++ map (fun e => fold (fst e)) ord) ->
+  cm_find_all (json_apply fold m ord) = cm_find_all m ++ ord.
+Proof.
+  unfold json_apply. induction ord as [|[k v] ord IH]; intros m H; cbn [fold_left].
+  - now rewrite app_nil_r.
+  - cbn [map fst] in H. pose proof (NoDup_remove_2 _ _ _ H) as Hf.
+    assert (Hfresh : ~ In (fold k) (map fst m)).
+    { intro I. apply Hf. apply in_or_app. now left. }
+    cbn [fst snd]. unfold cm_set_index. rewrite bucket_get_fresh by exact Hfresh.
+    rewrite bucket_put_fresh by exact Hfresh. rewrite IH.
+    + unfold cm_find_all. rewrite flat_map_app. cbn [flat_map snd app]. rewrite <- app_assoc. reflexivity.
+    + rewrite map_app. cbn [map fst]. rewrite <- app_assoc. exact H.
+Qed.
+
+Lemma fold_keys_nodup (fold : bytes -> bytes) (w : list jwrite) :
+  NoDup (map (fun e => fold (fst e)) w) -> NoDup (map fst w).
+Proof.
+  induction w as [|[k v] w IH]; intro H; cbn [map fst] in *; [constructor|].
+  inversion H; subst. constructor; [|now apply IH].
+  intro I. apply H2. apply in_map_iff in I as ([k' v'] & E & I). cbn [fst] in E. subst k'.
+  apply in_map_iff. exists (k, v'). split; [reflexivity|exact I].
+Qed.
+
+(* under the guard every assignment of the flattening (every leaf under its path, every array
+   length) is in ARGS_POST, whatever order Go's map iteration takes *)
+Theorem json_visible_partial fold w ord :
+  json_unambiguous fold w = true -> Permutation ord (json_res w) ->
+  Permutation (cm_find_all (json_apply fold [] ord)) w.
+Proof.
+  intros G P. apply nodup_b_NoDup in G.
+  rewrite (json_res_nodup w (fold_keys_nodup fold w G)) in P.
+  rewrite json_apply_nodup.
+  - exact P.
+  - cbn [map app]. eapply Permutation_NoDup; [|exact G]. apply Permutation_sym. now apply Permutation_map.
+Qed.
+
+(* colliding paths: a leaf of the body is in no variable and no error is raised
+   (finding c03-json-key-collision) *)
+Definition json_collision_witness : json :=
+  JObj [(str "a.b"%string, JRaw (str "1"%string)); (str "a"%string, JObj [(str "b"%string, JRaw (str "2"%string))])].
+
+Theorem json_collision_refuted :
+  exists t leaf, In leaf (json_leaves t (str "json"%string)) /\
+  forall fold ord, Permutation ord (json_res (fst (read_json t 10))) ->
+    snd (read_json t 10) = false /\ ~ In leaf (cm_find_all (json_apply fold [] ord)).
+Proof.
+  exists json_collision_witness, (str "json.a.b"%string, str "1"%string). split.
+  { vm_compute. left. reflexivity. }
+  intros fold ord P. split; [reflexivity|].
+  apply Permutation_sym in P. vm_compute in P. apply Permutation_length_1_inv in P. subst ord.
+  vm_compute. intros [C|[]]. discriminate.
+Qed.
